@@ -22,6 +22,23 @@ from .sym import SymInt, SymBool, SymReal, current, mk, _plain
 
 
 # ------------------------------------------------------------------------------ helpers
+def bool_names_in(formulas):
+    """names of the uninterpreted Boolean constants occurring in the formulas"""
+    out, seen, todo = set(), set(), list(formulas)
+    while todo:
+        e = todo.pop()
+        if e.get_id() in seen:
+            continue
+        seen.add(e.get_id())
+        if z3.is_quantifier(e):
+            todo.append(e.body())
+            continue
+        if z3.is_const(e) and z3.is_bool(e) and e.decl().kind() == z3.Z3_OP_UNINTERPRETED:
+            out.add(e.decl().name())
+        todo.extend(e.children())
+    return out
+
+
 def flatten_assertions(args):
     out = []
     for a in args:
@@ -314,8 +331,22 @@ class GhostSolver:
             return len(self.frames) - 1
         return (self.base_len - 1) + self.pushed_count()
 
-    def stack(self):
+    def raw_stack(self):
         return [f for fr in self.frames for f, _ in fr]
+
+    def stack(self):
+        fs = [f for fr in self.frames for f, _ in fr]
+        names = [n for fr in self.frames for _, n in fr if n is not None]
+        if not names:
+            return fs
+        # assert_and_track(f, p) is `p => f` checked under the assumption p.  For a fresh literal p that is just f; a
+        # literal that is *also an unknown of the model* (same name as a Boolean inside the formulas) is forced to true
+        key = (len(fs), tuple(f.get_id() for f in fs[-3:]), len(names))
+        if getattr(self, "_clash_key", None) != key:
+            inside = bool_names_in(fs)
+            self._clash = [z3.Bool(n) for n in dict.fromkeys(names) if n in inside]
+            self._clash_key = key
+        return fs + self._clash
 
     def tracked(self):
         return [(f, n) for fr in self.frames for f, n in fr if n is not None]
